@@ -238,7 +238,7 @@ func TestUpstream(t *testing.T) {
 		w.Advance(25) // 1070 (later than the worker's time-out, as upstream)
 		a1 := sc.exec("c1", "d1", "main", noInv, 0)
 		op := sc.newestOp()
-		w.Advance(2) // 1075
+		w.Advance(2)                                // 1075
 		a2 := sc.exec("c2", "d1", "main", noInv, 0) // same invocation: same operation
 		w.Advance(2)                                // 1080
 		a3 := sc.reattach("c3", op)
@@ -299,7 +299,7 @@ func TestUpstream(t *testing.T) {
 		sc.idle(w1)  // 1002: EXECUTING
 		w.Advance(5) // 1007
 		sc.operator(w.KillOperation(op, 14))
-		w.Advance(5)          // 1012
+		w.Advance(5)         // 1012
 		sc.running(w1, "d1") // still reports the killed action: told to go idle
 	})
 
@@ -314,7 +314,7 @@ func TestUpstream(t *testing.T) {
 		sc.exec("c1", "d1", "main", noInv, 0) // 1001
 		w.Advance(1)
 		sc.operator(w.KillQueue("main", "p1", 0, 14)) // 1002: FAILED_PRECONDITION, still has a worker
-		w.Advance(21)                                // 1060: exactly the worker's time-out
+		w.Advance(21)                                 // 1060: exactly the worker's time-out
 		sc.operator(w.KillQueue("main", "p1", 0, 14))
 	})
 
@@ -335,8 +335,8 @@ func TestUpstream(t *testing.T) {
 		w1 := sc.worker("w1", "h1", "main", "p1", 0)
 		sc.bogus(w1) // 1000
 		w.Advance(1)
-		sc.listing() // 1001: ListWorkers, not drained
-		w.Advance(2) // 1003
+		sc.listing()                                                                 // 1001: ListWorkers, not drained
+		w.Advance(2)                                                                 // 1003
 		sc.operator(w.Drain(true, "main", "p1", 0, map[string]string{"host": "h9"})) // matches nobody
 		w.Advance(1)
 		sc.listing() // 1004
@@ -355,43 +355,49 @@ func TestUpstream(t *testing.T) {
 	})
 
 	// ------------------------------------------------------------------
-	// TestInMemoryBuildQueueInvocationFairness: 5 invocations x 5 distinct
-	// actions, 25 workers take them one by one. Every request and every
+	// TestInMemoryBuildQueueInvocationFairness: K invocations x K distinct
+	// actions, K*K workers take them one by one; they must be served round
+	// robin (operation 0 of every invocation, then operation 1 of every
+	// invocation, ...). Upstream K = 5; TLC needs more than an hour for the
+	// 25-task snapshots of that size, so the default here is K = 3
+	// (VERIF_FAIR_K=5 gives the upstream size). Every request and every
 	// worker has its own clock reading (the order depends on them), so the
-	// 25 workers need 25 ticks: the worker time-out is raised to 60 so that,
-	// as upstream, no worker times out before the last one has synchronized.
+	// K*K workers need K*K ticks: for K > 4 the worker time-out is raised to
+	// 60 so that, as upstream, no worker times out before the last one has
+	// synchronized.
+	fairK := common.EnvInt("VERIF_FAIR_K", 3)
 	fairCfg := DefaultConfig
-	fairCfg.WorkerTimeout = 60
+	if fairK > 4 {
+		fairCfg.WorkerTimeout = 60
+	}
 	scriptedCfg(t, tr, next(), "TestInMemoryBuildQueueInvocationFairness", fairCfg, &fixedScript{}, func(sc *scenario) {
 		w := sc.w
+		k := fairK
 		w0 := sc.worker("w0", "h0", "main", "p1", 0)
 		sc.bogus(w0) // 1000
 		acts := []string{"d1", "d2", "d5", "d6"}
-		for k := 7; len(acts) < 25; k++ {
-			l := fmt.Sprintf("d%d", k)
+		for n := 7; len(acts) < k*k; n++ {
+			l := fmt.Sprintf("d%d", n)
 			w.AddAction(l, "p1", false)
 			acts = append(acts, l)
 		}
-		for i := 0; i < 25; i++ {
+		for i := 0; i < k*k; i++ {
 			w.Advance(1) // 1010+i
-			sc.exec(fmt.Sprintf("c%d", i+1), acts[i], "main", inv(i/5+1), 0)
+			sc.exec(fmt.Sprintf("c%d", i+1), acts[i], "main", inv(i/k+1), 0)
 		}
 		w.Advance(1)
-		sc.listing() // 1036: five queued invocations of five operations
-		for _, j := range []int{
-			0, 5, 10, 15, 20,
-			1, 6, 11, 16, 21,
-			2, 7, 12, 17, 22,
-			3, 8, 13, 18, 23,
-			4, 9, 14, 19, 24,
-		} {
-			w.Advance(1) // 1040+i
-			d := sc.worker(fmt.Sprintf("w%d", j+1), fmt.Sprintf("h%d", j+1), "main", "p1", 0)
-			sc.idle(d)
+		sc.listing() // 1036: K queued invocations of K operations
+		for r := 0; r < k; r++ {
+			for c := 0; c < k; c++ {
+				j := c*k + r // upstream: 0, 5, 10, 15, 20, 1, 6, ...
+				w.Advance(1) // 1040+i
+				d := sc.worker(fmt.Sprintf("w%d", j+1), fmt.Sprintf("h%d", j+1), "main", "p1", 0)
+				sc.idle(d)
+			}
 		}
 		w.Advance(2)
-		sc.listing()  // 1070..1072: everything executing
-		w.Advance(60) // 1200: every worker has timed out
+		sc.listing()                     // 1070..1072: everything executing
+		w.Advance(fairCfg.WorkerTimeout) // 1200: every worker has timed out
 		sc.listing()
 	})
 
